@@ -1,10 +1,17 @@
-(* REGENERATED on every run by tools/props/c29.py (regen) from general_invoke_callback() in
-   src/c/_cffi_backend.c: Py_INCREF(cb_args) / Py_DECREF(cb_args), every `goto error;` of the main part,
-   the labels done: / error:, `return;` and `goto done;`, in source order.  The committed copy is
-   GenInvoke.v.snapshot.  Do not edit. *)
+(* REGENERATED on every run by tools/props/c29.py (translate_invoke) from general_invoke_callback() in
+   src/c/_cffi_backend.c, in source order: Py_INCREF(cb_args) / Py_DECREF(cb_args); every read of the info
+   tuple cb_args or through a pointer borrowed from it (GUse: PyTuple_GET_ITEM(cb_args, i), SIGNATURE(i),
+   ct, signature, py_ob, py_rawerr, onerror_cb, ... found by following `x = PyTuple_GET_ITEM(borrowed, i)` /
+   `x = borrowed->field`); every call-out during which Python code may run (GCall: every call of a function
+   outside a short list of known-pure ones); every `goto error;` of the main part, the labels done: / error:,
+   `return;` and `goto done;`.  The two branches of an if/else are listed one after the other.
+   The committed copy is GenInvoke.v.snapshot.  Do not edit. *)
 From Coq Require Import List.
 Import ListNotations.
 From Cffi Require Import C29.Invoke.
 
 Definition invoke_events : list gev :=
-  [ GInc; GFail; GFail; GFail; GFail; GDoneLabel; GDec; GReturn; GErrorLabel; GGotoDone ].
+  [ GUse; GUse; GUse; GInc; GUse; GFail; GUse; GUse; GUse; GFail; GCall; GUse; GFail; GCall; GUse;
+    GFail; GDoneLabel; GCall; GCall; GDec; GReturn; GErrorLabel; GUse; GUse; GUse; GUse; GUse;
+    GUse; GCall; GCall; GUse; GCall; GCall; GCall; GUse; GCall; GUse; GUse; GUse; GUse; GUse;
+    GCall; GCall; GCall; GCall; GCall; GCall; GUse; GCall; GCall; GGotoDone ].
